@@ -360,9 +360,11 @@ int main(int argc, char** argv)
    { std::vector<std::string> wu = sweep().plans[2]; run_plan(wu, 0, nullptr, &prog, false); }
 
    std::string line;
+   bool hash_all = false;
    while (sim::read_line(line)) {
       const auto t = sim::split(line);
       if (t.empty()) continue;
+      if (t[0] == "HASHALL") { hash_all = t.size() > 1 && t[1] != "0"; std::printf("DONE\n"); continue; }
       if (t[0] == "RUNS" || t[0] == "SWEEP") {
          const bool sw = t[0] == "SWEEP";
          const uint64_t seed = sw ? 0 : std::strtoull(t[1].c_str(), nullptr, 0);
@@ -375,7 +377,7 @@ int main(int argc, char** argv)
             RunResult rr = run_plan(plan, i, &st, &prog, false);
             st.add("runs"); st.add("calls", rr.calls); st.add("ops", plan.size()); st.add("mode_" + mode);
             if (!rr.sig.empty()) { std::printf("CAND run=%" PRIu64 " sig=%s\n", i, rr.sig.c_str()); st.add("candidates"); }
-            if ((i & 63) == 0) std::printf("HASH run=%" PRIu64 " hash=%016" PRIx64 "\n", i, rr.hash);
+            if ((i & 63) == 0 || hash_all) std::printf("HASH run=%" PRIu64 " hash=%016" PRIx64 "\n", i, rr.hash);
          }
          merge_cover(st, triples);
          std::string tj = "{";
